@@ -78,4 +78,25 @@ Definition one_shot_domain (k : score_kind) (p : profile cand) : Prop :=
   | _ => wf_profile cand p /\ EditSpec.score_free cand (ballots p)
   end.
 
+(* ---- the STV family ---- *)
+(* an untied ranked ballot over [cs]: non-empty ranking of single candidates, nobody listed twice,
+   only declared candidates, no scores, weight >= 0 *)
+Definition stv_ballot_ok (cs : cset cand) (b : ballot cand) : Prop :=
+  rk b <> [] /\ Forall (fun g => length g = 1%nat) (rk b) /\ NoDup (flat cand (rk b)) /\
+  incl (flat cand (rk b)) cs /\ 0 <= wt b /\ sc b = [].
+Definition stv_domain (p : profile cand) : Prop :=
+  NoDup (cands p) /\ Forall (stv_ballot_ok (cands p)) (ballots p).
+
+(* the round [st] reports tallies for exactly the candidates of [p], and its remaining-ranking is
+   those tallies sorted (what initial_state and every step produce) *)
+Definition stv_state_ok (p : profile cand) (st : estate cand) : Prop :=
+  map fst (escores st) = cands p /\
+  remaining st = score_to_ranking cand (escores st) true.
+
+(* one step, related: same next profile, same next round, and both stay in the domain *)
+Definition stv_step_equiv (x y : profile cand * estate cand) : Prop :=
+  profile_equiv (fst x) (fst y) /\ state_equiv (snd x) (snd y) /\
+  stv_domain (fst x) /\ stv_domain (fst y) /\
+  stv_state_ok (fst x) (snd x) /\ stv_state_ok (fst y) (snd y).
+
 End Anon.
